@@ -162,6 +162,11 @@ func conc(in string, enc *json.Encoder, seed int64, capN int) any {
 			}
 			ex := sched.Run(fns, prefix, sched.First, rng, -1, nil)
 			nsched++
+			if !ex.Deadlock && !ex.Hang {
+				// the probe: one more request after every thread has finished (thread 0)
+				c, bd := status(h)
+				resps = append(resps, Resp{T: 0, I: 1, Code: c, Body: bd})
+			}
 			// canonical order of responses
 			for i := range resps {
 				for j := i + 1; j < len(resps); j++ {
@@ -221,6 +226,11 @@ func wait(in string, enc *json.Encoder) any {
 			ev := []map[string]any{}
 			do := func(ops []Op) {
 				for _, o := range ops {
+					if o.Op == "tick" { // several polling periods pass
+						time.Sleep(long)
+						ev = append(ev, map[string]any{"e": "sleep"})
+						continue
+					}
 					apply(h, o)
 					ev = append(ev, map[string]any{"e": "op", "o": o})
 				}
